@@ -124,6 +124,8 @@ _POLARS_DT = {"sb": "Utf8", "s": "Utf8", "p": "Utf8", "x": "Utf8", "ni": "Int64"
 
 def _keytext(prefix, lvl, k):
     """Group value text; a key written '<k>p' is the value <k> followed by one blank (a different value for the library)."""
+    if k == "blank":  # an empty text as group value (a group like any other; it has no heading text)
+        return ""
     if isinstance(k, str) and k.endswith("p"):
         return f"{prefix}{lvl}v{k[:-1]} "
     return f"{prefix}{lvl}v{k}"
@@ -181,6 +183,15 @@ def _apply_heights(spec, data, shown, widths_in):
     size = spec.get("size", 9)
     data[col] = [fill_to_lines(v, heights[r], widths_in[j], font, size) if heights[r] > 1 else v
                  for r, v in enumerate(data[col])]
+
+
+def _apply_group_by_lines(spec, data, shown, widths_in):
+    """spec["group_by_lines"] = k: the (repeated) value text of the first group_by column wraps to k lines in its column."""
+    k = spec.get("group_by_lines")
+    if not k or "k0" not in shown:
+        return
+    j = shown.index("k0")
+    data["k0"] = [v if v is None else fill_to_lines(v, k, widths_in[j], spec.get("font", 1), spec.get("size", 9)) for v in data["k0"]]
 
 
 def expected_widths(rel, total):
@@ -299,6 +310,7 @@ def _build_section(spec, page, dtag="D", htag="H") -> Built:
         rel_shown = list(rel)
     widths_in = expected_widths(rel_shown, col_width) if shown else []
     _apply_heights(spec, data, shown, widths_in)
+    _apply_group_by_lines(spec, data, shown, widths_in)
     for dst, src_col in (spec.get("dup_cols") or {}).items():
         data[dst] = list(data[src_col])
     df = pl.DataFrame({c: data[c] for c in order}, schema={c: schema[c] for c in order})
